@@ -111,14 +111,15 @@ func c13Run(c *mc.Ctx, mtu int, obus []ref.OBU, omitLast bool) {
 
 // c13RunBytes packetizes the serialised stream in (which stands for obus) and checks it.
 func c13RunBytes(c *mc.Ctx, mtu int, obus []ref.OBU, in []byte, what string) {
-	keep := clone(in)
+	keep := in
+	in, intact := guard(keep)
 	desc := func() string { return what }
 	payloads := (&codecs.AV1Payloader{}).Payload(uint16(mtu), in)
 	c.Ops(1)
 	if c.Verbose() {
 		c.Notef("%s -> %s", desc(), hxs(payloads))
 	}
-	if !bytes.Equal(in, keep) {
+	if !bytes.Equal(in, keep) || !intact() {
 		c.Failf("input-modified", "%s: Payload changed its input", desc())
 	}
 	var expected []ref.OBU
@@ -142,8 +143,17 @@ func c13RunBytes(c *mc.Ctx, mtu int, obus []ref.OBU, in []byte, what string) {
 	}
 	// (i) AV1Depacketizer
 	var d codecs.AV1Depacketizer
+	var decoyD *codecs.AV1Depacketizer
+	var decoyF *frame.AV1
+	if c13Decoy {
+		// an unrelated second depacketizer / assembler holding an unfinished fragment
+		decoyD, decoyF = &codecs.AV1Depacketizer{}, &frame.AV1{}
+	}
 	var out []byte
 	for i, p := range payloads {
+		if decoyD != nil {
+			_, _ = decoyD.Unmarshal([]byte{0x50, 0x30, 0xD1, 0xD2})
+		}
 		o, err := d.Unmarshal(clone(p))
 		c.Ops(1)
 		if err != nil {
@@ -165,6 +175,12 @@ func c13RunBytes(c *mc.Ctx, mtu int, obus []ref.OBU, in []byte, what string) {
 	var f frame.AV1
 	var viaFrame [][]byte
 	for i, p := range payloads {
+		if decoyF != nil {
+			var dp codecs.AV1Packet
+			if _, err := dp.Unmarshal([]byte{0x50, 0x30, 0xD1, 0xD2}); err == nil {
+				_, _ = decoyF.ReadFrames(&dp)
+			}
+		}
 		var pk codecs.AV1Packet
 		if _, err := pk.Unmarshal(clone(p)); err != nil {
 			c.Failf("av1packet-rejects", "%s: AV1Packet.Unmarshal(payload %d = %s): %v", desc(), i, hx(p), err)
@@ -337,7 +353,12 @@ func c13Header(c *mc.Ctx) {
 }
 
 // c13Wide: dimensions the product scenario keeps small, taken one at a time.
+// c13Decoy makes c13RunBytes interleave an unrelated second depacketizer and frame assembler.
+var c13Decoy bool
+
 func c13Wide(c *mc.Ctx) {
+	c13Decoy = c.Bool()
+	defer func() { c13Decoy = false }()
 	omit := c.Bool()
 	switch c.Pick(5) {
 	case 3: // non-minimal (padded) LEB128 size fields in the input, which the AV1 syntax allows
